@@ -1835,7 +1835,13 @@ BTree_rangeSearch(BTree *self, PyObject *args, PyObject *kw, char type)
     {
         int bucketlen;
         highbucket = BTree_lastBucket(self);
-        assert(highbucket != NULL);  /* we know self isn't empty */
+        if (highbucket == NULL)
+        {
+            /* self isn't empty, but a node on the way down could not be
+            * loaded (its jar's setstate raised) */
+            Py_DECREF(lowbucket);
+            goto err;
+        }
         UNLESS (PER_USE(highbucket))
             goto err_and_decref_buckets;
         bucketlen = highbucket->len;
